@@ -599,10 +599,23 @@ func runC15(c *Ctx) {
 	if c.Thorough {
 		procs = []int{1, 2, 4, 16}
 	}
-	G := c.N(8, 64)
-	rounds := c.N(1, 4)
 	seenRaces := map[string]bool{}
 	for _, p := range procs {
+		// sized so that one child stays well inside its watchdog: with one or two
+		// processors the goroutines are time-sliced, which costs several times more
+		G, rounds := 8, 1
+		if c.Thorough {
+			switch {
+			case p <= 1:
+				G, rounds = 16, 1
+			case p == 2:
+				G, rounds = 32, 1
+			case p <= 4:
+				G, rounds = 64, 2
+			default:
+				G, rounds = 64, 4
+			}
+		}
 		resFile := filepath.Join(tmp, fmt.Sprintf("stress-%d.json", p))
 		logBase := filepath.Join(tmp, fmt.Sprintf("race-%d.log", p))
 		cmd := exec.Command(raceBin, "child", "C15", "stress", fmt.Sprint(G), fmt.Sprint(rounds), fmt.Sprint(c.Seed+int64(p)), resFile)
